@@ -98,6 +98,11 @@ pub fn fast_check_roots_kind(pkgs: &[FcPackage], root_pkgs: &[usize], cache: Opt
   fast_check_steps(pkgs, root_pkgs, cache, ch, kind, false)
 }
 
+thread_local! {
+  /// when set, the final fast-check pass is run twice on the same graph
+  pub static REPEAT_FINAL_PASS: std::cell::Cell<bool> = const { std::cell::Cell::new(false) };
+}
+
 /// `two_steps`: root.ts imports only the first export of the first root
 /// package; after build + fast check a second build on the same graph adds
 /// root2.ts with all the other imports, and fast check runs again.
@@ -189,6 +194,9 @@ pub fn fast_check_steps(pkgs: &[FcPackage], root_pkgs: &[usize], cache: Option<&
   }
   let graph_errors: Vec<String> = graph.module_errors().map(|e| e.to_string()).collect();
   run_fast_check(&mut graph);
+  if REPEAT_FINAL_PASS.with(|r| r.get()) {
+    run_fast_check(&mut graph);
+  }
   let mut modules = BTreeMap::new();
   for p in pkgs {
     for (path, src) in &p.files {
